@@ -12,7 +12,7 @@ from .common import call
 
 SELFTESTS = ["fields", "params", "zcash", "h2c", "bls"]
 DECIDING = ["M-bls.aggregate", "M-bls.aggverify", "M-bls.fastaggverify", "B-c03.order"]
-SCOPE = ["M-bls.aggregate", "M-bls.aggverify", "M-bls.fastaggverify", "B-c03", "M-bls.total"]
+SCOPE = ["M-bls.aggregate", "M-bls.aggverify", "M-bls.fastaggverify", "B-c03"]
 RULE = ("cases = Aggregate / AggregateVerify / FastAggregateVerify calls on the real ciphersuite classes for signer sets whose secret keys the "
         "harness knows, judged by monitors wrapped around the methods: Aggregate == ZCash encoding of the model sum of the decoded signatures "
         "(and ValidationError for [] or wrongly sized / non-bytes entries); verification == preconditions (n >= 1, as many keys as messages, "
